@@ -131,6 +131,14 @@ func check(line, obs string) string {
 	if strings.HasPrefix(obs, "PANIC") {
 		return "Encrypt/Decrypt panicked: " + obs
 	}
+	if s.Scheme == "env" && s.KEK.Scheme == "pad" && s.KEK.PadN > MaxEncryptedDEK {
+		// the documented maximum of the encrypted DEK: Encrypt must refuse to build an envelope
+		// that Decrypt would reject
+		if obs != "enc-err" {
+			return fmt.Sprintf("Encrypt built an envelope around an encrypted DEK of %d bytes (documented maximum %d): %.60s", s.KEK.PadN, MaxEncryptedDEK, obs)
+		}
+		return ""
+	}
 	if !strings.HasPrefix(obs, "ct=") {
 		return "valid key or plaintext rejected: " + obs
 	}
@@ -305,6 +313,37 @@ func nilADCases(r *hx.Rng) []string {
 	return out
 }
 
+// MaxEncryptedDEK is the documented bound of the KMS envelope format (kms_envelope_aead.go
+// maxLengthEncryptedDEK; Envelope.v maxLengthEncryptedDEK): 1 <= len(encDEK) <= 4096.
+const MaxEncryptedDEK = 4096
+
+// envDEKSizeCases: envelopes whose key-encryption AEAD returns an encrypted DEK of a chosen
+// size (scheme "pad"), at the minimum that fits and around the documented maximum, for every
+// data-key template, with an empty and a short plaintext (the payload behind the encrypted
+// DEK is then as short as a data-key AEAD ciphertext can be).  Up to 4096 bytes the envelope
+// must round-trip in both directions (Tink decrypting the stdlib-framed envelope, the model
+// decrypting Tink's); above, Encrypt must fail.
+func envDEKSizeCases(r *hx.Rng) []string {
+	var out []string
+	for i, dek := range DEKNames {
+		k := randPlain(r)
+		for k.Scheme == "etm" && i%2 == 0 {
+			k = randPlain(r)
+		}
+		for _, n := range []int{PadMin(k, dek), MaxEncryptedDEK - 1, MaxEncryptedDEK, MaxEncryptedDEK + 1, MaxEncryptedDEK + 4} {
+			s := PadEnv(k, dek, n)
+			for _, l := range []int{0, 1 + r.Intn(40)} {
+				var ad []byte
+				if r.Chance(60) {
+					ad = r.Bytes(PickLen(r, 40))
+				}
+				out = append(out, fmt.Sprintf("C01|%s|%s|%s|%s|%s", s, hx.H(r.Bytes(s.IVLen())), hx.H(r.Bytes(s.IVLen())), hx.H(r.Bytes(l)), hx.H(ad)))
+			}
+		}
+	}
+	return out
+}
+
 func gen(r *hx.Rng, n int, tier string) []string {
 	var out []string
 	out = append(out, polyvalCases(r, n/8)...)
@@ -324,6 +363,7 @@ func gen(r *hx.Rng, n int, tier string) []string {
 		out = append(out, fmt.Sprintf("C01|%s|%s|%s|%s|%s", s, hx.H(nonce), hx.H(r.Bytes(12)), hx.H(pt), hx.H(ad)))
 	}
 	out = append(out, nilADCases(r)...)
+	out = append(out, envDEKSizeCases(r)...)
 	for i := len(out); i < n; i++ {
 		s := RandSpec(r)
 		max := 300
